@@ -7,6 +7,7 @@ import (
 	"strings"
 	"unsafe"
 
+	"github.com/hashicorp/hcl/v2"
 	"github.com/zclconf/go-cty/cty"
 )
 
@@ -28,6 +29,13 @@ func CanonLoose(v interface{}) string {
 	return s.sb.String()
 }
 
+// CanonShift is Canon with every hcl.Range passed through shift before rendering.
+func CanonShift(v interface{}, shift func(hcl.Range) hcl.Range) string {
+	s := &snap{ids: map[uintptr]int{}, shift: shift}
+	s.walk(reflect.ValueOf(v), 0)
+	return s.sb.String()
+}
+
 // Canon renders v as a canonical value string (no pointer identities, slices up
 // to length only). It is used to compare query results.
 func Canon(v interface{}) string {
@@ -42,6 +50,7 @@ type snap struct {
 	withCap    bool
 	withIDs    bool
 	nilEqEmpty bool
+	shift      func(hcl.Range) hcl.Range
 }
 
 var (
@@ -68,6 +77,14 @@ func (s *snap) walk(v reflect.Value, depth int) {
 	}
 	if depth > 200 {
 		s.sb.WriteString("<deep>")
+		return
+	}
+	if s.shift != nil && v.Type() == rangeType {
+		pos := func(f reflect.Value) hcl.Pos {
+			return hcl.Pos{Line: int(f.Field(0).Int()), Column: int(f.Field(1).Int()), Byte: int(f.Field(2).Int())}
+		}
+		rg := s.shift(hcl.Range{Filename: v.Field(0).String(), Start: pos(v.Field(1)), End: pos(v.Field(2))})
+		fmt.Fprintf(&s.sb, "hcl.Range{%q,%d:%d:%d-%d:%d:%d}", rg.Filename, rg.Start.Line, rg.Start.Column, rg.Start.Byte, rg.End.Line, rg.End.Column, rg.End.Byte)
 		return
 	}
 	switch v.Type() {
